@@ -504,14 +504,48 @@ namespace c14
             std::initializer_list<T> il = {E::make(ids[I])...};
             return guarded([&] { w.create(bx, [&](void *where) { return new (where) SV(il); }); });
         }
+        // initializer lists have compile-time lengths: 0..2N for the small capacities, capped at 18 for the large ones
+        static constexpr size_t IL_MAX = 2 * N < 18 ? 2 * N : 18;
         template <size_t K = 0> bool create_il_n(H &w, bool bx, const std::vector<int> &ids)
         {
             if (ids.size() == K)
                 return create_il(w, bx, ids, std::make_index_sequence<K>());
-            if constexpr (K < 2 * N)
+            if constexpr (K < IL_MAX)
                 return create_il_n<K + 1>(w, bx, ids);
             else
-                return false;
+                vf::fail("harness:initializer-list-length", "no initializer list of %zu entries is compiled in", ids.size());
+        }
+        // many appends (push_back / emplace_back alternately) with an O(1) size check per step and one full
+        // comparison at the end: for the large capacities, where a full comparison per element would be quadratic
+        void bulk_push(size_t count)
+        {
+            op = "fill(push_back,emplace_back)";
+            Tracked::at(op);
+            vf::cls((flav() + ":" + op).c_str());
+            iter_ctx() = flav() + ":" + op;
+            char b[96];
+            snprintf(b, sizeof b, "%sfill x%zu[n=%zu]", trace.empty() ? "" : " ; ", count, m.size());
+            trace += b;
+            if (vf::verbose())
+                printf("  op %zu x push_back/emplace_back   N=%zu size=%zu\n", count, N, m.size());
+            for (size_t i = 0; i < count; i++)
+            {
+                int id = next++;
+                if (i & 1)
+                    v->emplace_back(E::arg(id));
+                else
+                {
+                    T x = E::make(id);
+                    v->push_back(x);
+                }
+                if (m.size() < N)
+                    m.push_back(id);
+                if (v->size() != m.size())
+                    bad("seq", "size", "size()=%zu after append #%zu, reference (clipped to N=%zu) has %zu", v->size(), i + 1, N, m.size());
+                if (E::id(v->back()) != m.back())
+                    bad("seq", "front-back", "back()=%d after append #%zu, reference %d", E::id(v->back()), i + 1, m.back());
+            }
+            verify();
         }
 
         void apply(const Op &o)
@@ -1072,6 +1106,92 @@ namespace c14
         }
     };
 
+    // (e) boundary capacities (powers of two and their neighbours): fill to N-1, N, overfill, copy/move, resize around N and to 2N,
+    //     clear and refill, erase, construction from ranges / initializer lists around N, assignment - every step compared
+    template <class T, size_t N> struct SVBoundary
+    {
+        using Hs = SVHist<T, N>;
+        using SV = typename Hs::SV;
+        static void run(bool boxed)
+        {
+            int n = (int)N;
+            Hs h;
+            h.start(boxed);
+            // the fill comes first: a size counter that cannot represent N shows here, before anything can loop on it
+            h.bulk_push(N - 1);
+            h.bulk_push(1);
+            VF_OK("boundary capacity: filled to exactly N");
+            h.bulk_push(3);
+            h.apply({S_COPY_CTOR, !boxed, 0});
+            h.apply({S_COPY_ASSIGN_TO, n, 0});
+            h.apply({S_MOVE_CTOR, boxed, 0});
+            for (int k : {n - 1, n, n + 1, 2 * n, 0, n, 1})
+                h.apply({S_RESIZE, k, 0});
+            h.apply({S_CLEAR, 0, 0});
+            h.bulk_push(N + 1);
+            if (has_erase<SV> && N >= 3)
+                h.apply({S_ERASE_RANGE, 1, n - 1});
+            h.apply({S_RESIZE, n, 0});
+            for (int k : {n - 1, n, n + 1, 2 * n})
+                for (int kind : {1, 2})
+                    if (has_range_ctor<SV, T>)
+                    {
+                        h.apply({S_CTOR_RANGE, k, kind});
+                        h.apply({S_PUSH_FRESH, 0, 0});
+                    }
+            for (int k : {n - 1, n, n + 1})
+                if (has_il<SV, T> && (size_t)k <= Hs::IL_MAX)
+                    h.apply({S_CTOR_IL, k, 0});
+            h.apply({S_COPY_ASSIGN_FROM, n, 0});
+            h.apply({S_MOVE_ASSIGN_FROM, n, 0});
+            h.apply({S_PUSH_ALIAS, 0, 0});
+            h.apply({S_MOVE_ASSIGN_TO, n - 1, 0});
+            h.apply({S_EMPLACE_BACK, 0, 0});
+            h.apply({S_EMPLACE_BACK, 0, 0});
+            h.finish();
+            vf::count_bulk(1, 1);
+            if (vf::want_sample() && N == 256 && !boxed)
+                vf::sample("boundary: %s N=%zu %.300s", Hs::flav().c_str(), N, h.trace.c_str());
+        }
+    };
+    // quick: N in {15,16,17,127,128,255,256,257}; thorough adds {65535,65536,65537} for T = int
+    template <class T> struct BoundaryOverN
+    {
+        static uint64_t count() { return 2 * (8 + (std::is_same_v<T, int> && vf::thorough() ? 3 : 0)); }
+        static void run(uint64_t idx)
+        {
+            bool boxed = idx & 1;
+            switch (idx >> 1)
+            {
+            case 0:
+                return SVBoundary<T, 256>::run(boxed); // the most telling capacities first
+            case 1:
+                return SVBoundary<T, 255>::run(boxed);
+            case 2:
+                return SVBoundary<T, 257>::run(boxed);
+            case 3:
+                return SVBoundary<T, 128>::run(boxed);
+            case 4:
+                return SVBoundary<T, 127>::run(boxed);
+            case 5:
+                return SVBoundary<T, 16>::run(boxed);
+            case 6:
+                return SVBoundary<T, 15>::run(boxed);
+            case 7:
+                return SVBoundary<T, 17>::run(boxed);
+            default:
+                if constexpr (std::is_same_v<T, int>)
+                {
+                    if ((idx >> 1) == 8)
+                        return SVBoundary<T, 65536>::run(boxed);
+                    if ((idx >> 1) == 9)
+                        return SVBoundary<T, 65535>::run(boxed);
+                    return SVBoundary<T, 65537>::run(boxed);
+                }
+            }
+        }
+    };
+
     // dispatch one suite index over N in {1,2,3,5,8}
     template <class T, template <class, size_t> class S> struct OverN
     {
@@ -1122,3 +1242,4 @@ namespace c14
 #define C14_SV_FAULT_SUITES(tag)                                                                                                 \
     VF_SUITE(faults_enumerate_##tag, (c14::OverN<c14::Throwing, c14::SVFault>::count), (c14::OverN<c14::Throwing, c14::SVFault>::run)) \
     VF_SUITE(faults_random_##tag, (c14::RandOverN<c14::Throwing>::count), (c14::RandOverN<c14::Throwing>::run))
+#define C14_SV_BOUNDARY_SUITES(T, tag) VF_SUITE(boundary_##tag, (c14::BoundaryOverN<T>::count), (c14::BoundaryOverN<T>::run))
